@@ -2,6 +2,8 @@ import NanoVerif.Model.Wire
 import NanoVerif.Model.Transformed
 import NanoVerif.Model.Gradient
 import NanoVerif.Model.Palette
+import NanoVerif.Model.ViewBox
+import NanoVerif.Model.ClipBox
 /-
 Correspondence driver.  One JSON object per input line: {"op": ..., ...}; one JSON object per
 output line.  Run: `lake env lean --run Driver.lean < ops.jsonl`.
@@ -72,8 +74,49 @@ def pErr : PErr → String
   | .indexError => "IndexError"
   | .assertNotEmpty => "AssertionError"
 
+def vErr : VErr → String
+  | .assertFail => "AssertionError"
+  | .zeroDiv => "ZeroDivisionError"
+
+def getBox (j : Json) : Except String Box := do
+  match ← getQs j with
+  | [a, b, c, d] => return ⟨a, b, c, d⟩
+  | _ => throw "box needs 4"
+def jBox (b : Box) : Json := jQs [b.xMin, b.yMin, b.xMax, b.yMax]
+
+def getLayer (j : Json) : Except String (List Pt × Aff) := do
+  let pts ← (← getArr (← field j "pts")).mapM getPt
+  let t ← getAff (← field j "t")
+  return (pts, t)
+
 def dispatch (op : String) (j : Json) : Except String Json := do
   match op with
+  | "viewbox-space" =>
+      let vb ← getRect (← field j "vb")
+      let asc ← getQ (← field j "asc")
+      let desc ← getQ (← field j "desc")
+      let w ← getQ (← field j "width")
+      let u ← getAff (← field j "user")
+      let which ← getStr (← field j "which")
+      let r := if which == "font" then mapViewboxToFontSpace vb asc desc w u else mapViewboxToOtsvgSpace vb asc desc w u
+      match r with
+      | .ok t => return obj [("t", jAff t)]
+      | .error e => return obj [("err", Json.str (vErr e))]
+  | "advance" =>
+      let vb ← getRect (← field j "vb")
+      match advanceWidth vb (← getInt (← field j "asc")) (← getInt (← field j "desc")) (← getInt (← field j "width")) with
+      | .ok r => return obj [("r", jI r)]
+      | .error e => return obj [("err", Json.str (vErr e))]
+  | "quantize" =>
+      let b ← getBox (← field j "box")
+      let f ← getNat (← field j "factor")
+      return obj [("r", jBox (quantizeRect b f))]
+  | "clip-bounds" =>
+      let layers ← (← getArr (← field j "layers")).mapM getLayer
+      let f ← getNat (← field j "factor")
+      match clipBounds layers f with
+      | none => return obj [("r", Json.null)]
+      | some b => return obj [("r", jBox b)]
   | "palette" =>
       let cs ← (← getArr (← field j "colors")).mapM getColor
       match uniqSortCpal cs with
